@@ -8,7 +8,7 @@ import (
 )
 
 func init() {
-	register(&Rule{ID: "C08.R7", Min: 5,
+	register(&Rule{ID: "C08.R7", Min: 2,
 		Text: "digits and exponent are only interpreted for finite values: every call of setExponent (which derives Overflow/Subnormal/Inexact from Coeff and Exponent) is reached only with a receiver known to be finite — its Form was stored Finite on every path, it is a copy of a finite package constant, or it is a copy of an operand whose Form == Finite test dominates the call; an infinity's leftover Coeff/Exponent is never reported as a condition",
 		Run:  ruleNumericOnlyFinite})
 }
@@ -55,13 +55,10 @@ func ruleNumericOnlyFinite(w *World, r *RuleResult) {
 		}
 		return false
 	}
-	for _, c := range calls {
+	// finiteAt: obj (a *Decimal base pointer in c's function) is known to be finite when c is reached
+	var finiteAt func(c *ssa.Call, recv ssa.Value, depth int) (bool, string)
+	finiteAt = func(c *ssa.Call, recv ssa.Value, depth int) (bool, string) {
 		f := c.Parent()
-		key := fmt.Sprintf("%s | setExponent on a finite value", w.shortName(f))
-		if n := countKey(r, key); n > 0 {
-			key = fmt.Sprintf("%s #%d", key, n+1)
-		}
-		recv := basePtr(c.Common().Args[0])
 		// (a) Form = Finite stored on every path
 		stored := seenBefore(c, func(in ssa.Instruction) bool {
 			st, ok := in.(*ssa.Store)
@@ -76,13 +73,11 @@ func ruleNumericOnlyFinite(w *World, r *RuleResult) {
 			return isK && ci(k) == finite
 		})
 		if stored {
-			r.ok(key, w.instrPos(c), "Form = Finite is stored on every path to the call", true)
-			continue
+			return true, "Form = Finite is stored on every path to the call"
 		}
 		// (b) a dominating Form == Finite test of the receiver itself
 		if finiteGuard(c.Block(), recv) {
-			r.ok(key, w.instrPos(c), "dominated by a Form == Finite test of the receiver", true)
-			continue
+			return true, "dominated by a Form == Finite test of the receiver"
 		}
 		// (c) the receiver is a copy (Set) of a finite constant or of an operand tested finite
 		why := ""
@@ -115,6 +110,43 @@ func ruleNumericOnlyFinite(w *World, r *RuleResult) {
 			return false
 		})
 		if copied {
+			return true, why
+		}
+		// (d) the value is handed in by the callers of an unexported helper: judged at every call site
+		if pr, isP := recv.(*ssa.Parameter); isP && depth < 3 && (f.Object() == nil || !f.Object().Exported()) {
+			idx := -1
+			for i, q := range f.Params {
+				if q == pr {
+					idx = i
+				}
+			}
+			sites := w.allCallsTo(w.shortName(f))
+			if idx >= 0 && len(sites) > 0 && !w.addressTaken(f) {
+				all := true
+				for _, s := range sites {
+					if idx >= len(s.Common().Args) {
+						all = false
+						break
+					}
+					if ok, _ := finiteAt(s, basePtr(s.Common().Args[idx]), depth+1); !ok {
+						all = false
+						break
+					}
+				}
+				if all {
+					return true, fmt.Sprintf("the value is a parameter of the unexported %s, finite at each of its %d call sites", w.shortName(f), len(sites))
+				}
+			}
+		}
+		return false, ""
+	}
+	for _, c := range calls {
+		f := c.Parent()
+		key := fmt.Sprintf("%s | setExponent on a finite value", w.shortName(f))
+		if n := countKey(r, key); n > 0 {
+			key = fmt.Sprintf("%s #%d", key, n+1)
+		}
+		if ok, why := finiteAt(c, basePtr(c.Common().Args[0]), 0); ok {
 			r.ok(key, w.instrPos(c), why, true)
 			continue
 		}
